@@ -39,23 +39,29 @@ def judge(ctx, kind, v, opts, r, m):
 
 def run(ctx):
     n = ctx.n(1500, 40000)
-    cases = B.gen_cases(ctx, n, big=ctx.thorough)
-    models = B.model_side(cases)
-    for (kind, v), m in zip(cases, models):
-        opts = dict(wide=ctx.rng.random() < 0.25, vpstyle=ctx.rng.choice([0, 0, 1]),
-                    prov=ctx.rng.choice(A.PROVENANCES) if ctx.rng.random() < 0.2 else None, scalars=ctx.rng.choice([None, None, "np", "py"]))
-        r = B.real_side(kind, v, **opts)
-        ctx.case((kind, v), nontrivial=A.nontrivial(kind, v), sample=dict(kind=kind, v=v) if len(repr(v)) < 700 else None,
-                 tags=B.shape_tags(kind, v) + (["f64-input"] if opts["wide"] else []) + ([f"prov={opts['prov']}"] if opts["prov"] else []) + ([f"scalars={opts['scalars']}"] if opts.get("scalars") else []))
-        judge(ctx, kind, v, opts, r, m)
+    for c0 in range(0, n, 2500):                   # in chunks: the thorough tier must not hold 40 000 encodings at once
+        cases = B.gen_cases(ctx, min(2500, n - c0), big=ctx.thorough)
+        models = B.model_side(cases)
+        for (kind, v), m in zip(cases, models):
+            opts = dict(wide=ctx.rng.random() < 0.25, vpstyle=ctx.rng.choice([0, 0, 1]),
+                        prov=ctx.rng.choice(A.PROVENANCES) if ctx.rng.random() < 0.2 else None, scalars=ctx.rng.choice([None, None, "np", "py"]))
+            r = B.real_side(kind, v, **opts)
+            ctx.case((kind, v), nontrivial=A.nontrivial(kind, v), sample=dict(kind=kind, v=v) if len(repr(v)) < 700 else None,
+                     tags=B.shape_tags(kind, v) + (["f64-input"] if opts["wide"] else []) + ([f"prov={opts['prov']}"] if opts["prov"] else []) + ([f"scalars={opts['scalars']}"] if opts.get("scalars") else []))
+            judge(ctx, kind, v, opts, r, m)
     life_cycles(ctx, judge, ctx.n(350, 8000))
 
 
 def life_cycles(ctx, judge_fn, n):
     """the same object used, edited in place through its public attributes, and used again (up to three times): what is
     written must be the object as it is NOW, whatever was computed for it before"""
+    for c0 in range(0, n, 700):
+        _life_cycles(ctx, judge_fn, c0, min(n, c0 + 700))
+
+
+def _life_cycles(ctx, judge_fn, i0, i1):
     stages = []
-    for i in range(n):
+    for i in range(i0, i1):
         kind = A.KINDS[i % len(A.KINDS)]
         v0 = A.GEN[kind](ctx.rng)
         opts = dict(wide=ctx.rng.random() < 0.2, vpstyle=ctx.rng.choice([0, 0, 1]))
